@@ -92,20 +92,28 @@ int main(int argc, char *argv[]) {
     parmcb::read_dimacs_from_file(fp, graph);
     fclose(fp);
 
-    if (world.rank() == 0) {
-        if (parmcb::has_loops(graph)) {
+    // every rank has read the file: every rank takes the same decision, so that no rank is left
+    // waiting in a collective for a rank that has already returned
+    if (parmcb::has_loops(graph)) {
+        if (world.rank() == 0) {
             std::cerr << "Graph has loops, aborting.." << std::endl;
-            return EXIT_FAILURE;
         }
-        if (parmcb::has_multiple_edges(graph)) {
+        return EXIT_FAILURE;
+    }
+    if (parmcb::has_multiple_edges(graph)) {
+        if (world.rank() == 0) {
             std::cerr << "Graph has multiple edges, aborting.." << std::endl;
-            return EXIT_FAILURE;
         }
-        if (parmcb::has_non_positive_weights(graph, get(boost::edge_weight, graph))) {
+        return EXIT_FAILURE;
+    }
+    if (parmcb::has_non_positive_weights(graph, get(boost::edge_weight, graph))) {
+        if (world.rank() == 0) {
             std::cerr << "Graph has negative or zero weight edges, aborting.." << std::endl;
-            return EXIT_FAILURE;
         }
+        return EXIT_FAILURE;
+    }
 
+    if (world.rank() == 0) {
         std::cout << "Graph has " << num_vertices(graph) << " vertices" << std::endl;
         std::cout << "Graph has " << num_edges(graph) << " edges" << std::endl;
         std::cout << std::flush;
